@@ -59,7 +59,7 @@ theorem hdrCost_le (bs : Bytes) : hdrCost bs ≤ 1503 := by
   · split <;> omega
   · omega
 
-theorem hdrCost_ok (bs r : Bytes) (p : Option Pkt) (h : decodeSampledHeader bs = .ok (p, r)) :
+theorem hdrCost_ok (bs r : Bytes) (p : RawHeader) (h : decodeSampledHeader bs = .ok (p, r)) :
     hdrCost bs + 64 * r.length + 2 ≤ 64 * (bs.length + 8) := by
   unfold decodeSampledHeader at h
   unfold hdrCost
